@@ -89,3 +89,11 @@ Example C03_nonvacuous :
              [Step 0; Step 1; Step 0; Step 1; Step 0; Step 0; Step 0; Step 0; Step 1; Step 1; Step 1; Step 1]%nat in
   live s !! 1%nat = Some [65]%Z /\ live s !! 101%nat = Some [66]%Z /\ length (log s) = 2%nat.
 Proof. vm_compute. repeat split. Qed.
+
+(** The model the theorems above are about is the translation of src/bin/copia/wire.rs cas_decide as it is now: the function
+    generated from the source by tools/gen_logic.py (Gen/CasGen.v) equals, on every input, the decision `current hash = expected` of Model/Hub.v (spec and step)
+    (statement: Proofs/TieCas.v, [cas_model_is_translation]). *)
+Require Copia.Proofs.TieCas.
+Theorem C03_model_is_translation_of_source : TieCas.cas_model_is_translation.
+Proof. exact TieCas.cas_model_is_translation_holds. Qed.
+Print Assumptions C03_model_is_translation_of_source.
